@@ -29,7 +29,7 @@ class BuilderWorld(World):
     stub_components = ()
     fault_kinds = ("rejected_add", "invalid_name", "invalid_offset", "misaligned_offset",
                    "duplicate_register", "add_after_freeze", "invalid_scope",
-                   "exception_unwinds_scopes",
+                   "exception_unwinds_scopes", "second_builder_used_meanwhile",
                    "layout_rejected_overlap", "layout_rejected_name", "layout_rejected_overflow")
     assumptions = (
         "no clock and no concurrency exist for this property: sequential model-based conformance "
@@ -46,7 +46,7 @@ class BuilderWorld(World):
 
     def gen_config(self, rng, prop):
         g = rng.choice([8, 8, 4, 16])
-        return {"aw": rng.range(1, 6), "dw": g * rng.choice([1, 1, 2, 4]), "g": g}
+        return {"aw": rng.range(1, 6), "dw": g * rng.choice([1, 1, 2, 4, 3, 5, 6]), "g": g}
 
     def gen_ops(self, rng, config, prop):
         aw, dw, g = config["aw"], config["dw"], config["g"]
@@ -82,6 +82,9 @@ class BuilderWorld(World):
                 depth -= 1
             elif k < 87:
                 ops.append({"k": "freeze"})
+            elif k < 91:
+                ops.append({"k": "other", "name": rng.choice(["a", "b"]), "w": rng.choice([1, dw]),
+                            "scope": rng.choice([None, "x", 0])})
             elif k < 89:
                 ops.append({"k": "map"})
         return ops
@@ -256,6 +259,25 @@ class BuilderWorld(World):
                 elif k == "freeze":
                     b.freeze()
                     frozen = True
+                elif k == "other":
+                    # a second builder is used while scopes of the first are open
+                    b2 = csr.Builder(addr_width=aw, data_width=dw, granularity=g)
+                    r2 = csr.Register(csr.Field(csr.action.R, max(1, int(op.get("w", 1)))), access="r")
+                    sc2 = op.get("scope")
+                    if sc2 is None:
+                        b2.add(op.get("name", "a"), r2)
+                        want2 = (op.get("name", "a"),)
+                    else:
+                        with (b2.Index(sc2) if isinstance(sc2, int) else b2.Cluster(sc2)):
+                            b2.add(op.get("name", "a"), r2)
+                        want2 = (sc2, op.get("name", "a"))
+                    got2 = [tuple(n) for _, n, _ in b2.as_memory_map().resources()]
+                    stats.checks += 1
+                    stats.fault("second_builder_used_meanwhile")
+                    if got2 != [want2]:
+                        raise V("register-named-wrongly", step,
+                                f"a second builder names its register {got2}, expected {[want2]} "
+                                f"(open scopes of the first builder: {scopes})")
                 elif k == "map":
                     check_map(step)
                     hist.rec(step, "map")
